@@ -27,7 +27,8 @@ def decFlags (s : String) : Option StyleVariant :=
   | [a, b, c, d, e, f, g] => some ⟨a, b, c, d, e, f, g⟩
   | _ => none
 
-/-- A string of the request; `none` if it leaves the modelled (ASCII) domain. -/
+/-- A string of the request; `none` if it leaves the modelled domain (all code points; only a string whose
+lower-casing is context dependent — GREEK CAPITAL SIGMA — is `unmodelled`). -/
 def decS (s : String) : Option (List Char) :=
   let cs := decStr s
   if StrTables.lowerUnmodelled cs then none else some cs
